@@ -250,10 +250,26 @@ static void scenThread(int variant)
     if(r != 9 || !g_finished) vf_failf("C11:thread:join-result", "join returned %u (finished=%d), expected 9", r, (int)g_finished);
     if(g_ran2) vf_failf("C11:thread:double-start", "the function of the rejected second start ran");
   }
-  else
+  else if(variant == 2)
   {
     { Thread t; t.start(procSeven, 0); }
     if(!g_finished) vf_failf("C11:thread:destructor-join", "the destructor returned before the thread function finished");
+  }
+  else
+  { // the same Thread object used again after join: each join reports the function of its own start
+    Thread t;
+    t.start(procSeven, 0);
+    uint r1 = t.join();
+    if(r1 != 7 || !g_finished) vf_failf("C11:thread:join-result", "first join returned %u (finished=%d), expected 7", r1, (int)g_finished);
+    g_finished = 0;
+    if(!t.start(procTwo, 0)) vf_failf("C11:thread:start", "start after join failed");
+    uint r2 = t.join();
+    if(r2 != 2 || !g_ran2) vf_failf("C11:thread:join-result", "join after the second start returned %u (ran=%d), expected 2", r2, (int)g_ran2);
+    Signal gate; g_gate = &gate;
+    if(!t.start(procGate, 0)) vf_failf("C11:thread:start", "third start failed");
+    gate.set();
+    uint r3 = t.join();
+    if(r3 != 9 || !g_finished) vf_failf("C11:thread:join-result", "third join returned %u (finished=%d), expected 9", r3, (int)g_finished);
   }
 }
 
@@ -275,7 +291,7 @@ static void scenDeadline(int variant)
 }
 
 struct Scen { const char* name; void (*fn)(int); int variants; };
-static const Scen SCEN[] = {{"mutex", scenMutex, 4}, {"semaphore", scenSemaphore, 4}, {"signal", scenSignal, 5}, {"monitor", scenMonitor, 6}, {"thread", scenThread, 3}, {"deadline", scenDeadline, 54}};
+static const Scen SCEN[] = {{"mutex", scenMutex, 4}, {"semaphore", scenSemaphore, 4}, {"signal", scenSignal, 5}, {"monitor", scenMonitor, 6}, {"thread", scenThread, 4}, {"deadline", scenDeadline, 54}};
 extern "C" int vf_scenario_count(void) { return (int)(sizeof(SCEN) / sizeof(*SCEN)); }
 extern "C" const char* vf_scenario_name(int id) { return SCEN[id].name; }
 extern "C" int vf_scenario_variants(int id) { return SCEN[id].variants; }
